@@ -30,6 +30,13 @@ Replace == \E i \in 0..(live - 1), f \in FaultAt :
              /\ UNCHANGED live /\ hist' = Append(hist, Op("replace", "", 0, "", i, FALSE, "", f))
 SetNode == \E d \in {"mem+", "cpu+"}, f \in FaultAt :
              /\ UNCHANGED live /\ hist' = Append(hist, [Op("setnode", "", 0, "", -1, FALSE, d, f) EXCEPT !.nodes = <<"n1">>])
-Next == Len(hist) < MaxOps /\ (Create \/ Remove \/ Dissociate \/ Realloc \/ Replace \/ SetNode)
+\* the capacity query (read-only), alone with or without an injected failure, or followed by the very deployment it was
+\* asked about: what it reported must be what the deployment then does (Trace_Cluster)
+Capacity == \E s \in {"DUMMY", "AUTO", "FILL", "EACH"}, c \in {1, 2, 3}, r \in {"u", "b", "h", "m"}, f \in FaultAt :
+             /\ UNCHANGED live /\ hist' = Append(hist, Op("capacity", s, c, r, -1, FALSE, "", f))
+CapacityThenCreate == \E s \in {"AUTO", "FILL", "EACH"}, c \in {1, 2, 3}, r \in {"u", "b", "h", "m"} :
+             /\ Len(hist) + 2 <= MaxOps /\ live + c <= MaxWl /\ live' = live + c
+             /\ hist' = hist \o <<Op("capacity", s, c, r, -1, FALSE, "", 0), Op("create", s, c, r, -1, FALSE, "", 0)>>
+Next == Len(hist) < MaxOps /\ (Create \/ Remove \/ Dissociate \/ Realloc \/ Replace \/ SetNode \/ Capacity \/ CapacityThenCreate)
 Spec == Init /\ [][Next]_vars
 =============================================================================
